@@ -16,6 +16,8 @@ pub struct G {
     /// (channel, tag) of consumers the generator believes exist
     pub consumers: Vec<(u16, String)>,
     pub mode: String,
+    pub no_random_teardown: bool,
+    pub uniq: u32,
 }
 
 fn s(rng: &mut Rng) -> String {
@@ -49,7 +51,7 @@ impl G {
         };
         let max = if max == 0 { 3 } else { max };
         let bound = *rng.pick(&[1usize, 2, 3, 16]);
-        G { w: World::new(max, bound), rng, consumers: vec![], mode: mode.to_string() }
+        G { w: World::new(max, bound), rng, consumers: vec![], mode: mode.to_string(), no_random_teardown: false, uniq: 0 }
     }
 
     pub fn open_ids(&self) -> Vec<u16> {
@@ -234,7 +236,7 @@ impl G {
         if left > 0 {
             if full {
                 v.push(Wr::Wrote(left));
-            } else if self.rng.chance(1, 8) {
+            } else if self.mode == "mix" && self.rng.chance(1, 8) {
                 v.push(Wr::Err);
             } else {
                 v.push(Wr::Block);
@@ -276,6 +278,13 @@ impl G {
     /// the end of every case: if the thread failed it is torn down; everything still
     /// receivable is received so that the oracles see complete queues
     pub fn finish(&mut self) {
+        if self.no_random_teardown {
+            if self.w.errored {
+                self.w.teardown();
+            }
+            self.w.drain_all();
+            return;
+        }
         if self.w.errored || self.rng.chance(1, 4) {
             self.w.teardown();
         }
@@ -389,6 +398,13 @@ impl G {
         let mode = self.mode.clone();
         match mode.as_str() {
             "c03" => self.mode_c03(),
+            "c04" => self.mode_c04(),
+            "c05" => self.mode_c05(),
+            "c08" => self.mode_c08(),
+            "c09" => self.mode_c09(),
+            "c11" => self.mode_c11(),
+            "c13" => self.mode_c13(),
+            "c20" => self.mode_c20(),
             "c07" => {
                 self.setup_channels(0, 3);
                 self.setup_consumers(40);
@@ -456,6 +472,657 @@ impl G {
             }
         }
         self.finish();
+    }
+
+
+    // ------------------------------------------------------------ more modes
+
+    fn uniq_tag(&mut self) -> String {
+        self.uniq += 1;
+        format!("t{}", self.uniq)
+    }
+
+    fn recv_reply(&mut self, ch: u16) {
+        if ch == 0 {
+            self.w.cl_recv(0);
+        } else if let Some(q) = self.w.handle_q.get(&ch).cloned() {
+            self.w.cl_recv(q);
+        }
+    }
+
+    fn random_reply(&mut self, ch: u16) -> FR {
+        let rng = &mut self.rng;
+        let k = rng.below(GENERIC_KINDS as u64) as u8;
+        FR::Method(ch, SM::Generic(k, s(rng), (rng.next() >> rng.below(40)) as u32, rng.below(1000) as u32))
+    }
+
+    /// C04: replies routed to the channel they arrive on, in order, with their values
+    fn mode_c04(&mut self) {
+        self.no_random_teardown = true;
+        self.setup_channels(2, 5);
+        let ids = self.open_ids();
+        if ids.is_empty() {
+            return;
+        }
+        let mut outstanding: std::collections::HashMap<u16, u32> = Default::default();
+        let n = self.rng.range(4, 30);
+        let mut episode: Vec<FR> = vec![];
+        for _ in 0..n {
+            let ch = *self.rng.pick(&ids);
+            let o = outstanding.entry(ch).or_insert(0);
+            if *o >= 2 {
+                // the reply queue holds two: the caller takes one first
+                let ep = std::mem::take(&mut episode);
+                if !ep.is_empty() {
+                    self.feed(ep, Term::Block);
+                }
+                self.recv_reply(ch);
+                *outstanding.get_mut(&ch).unwrap() -= 1;
+                continue;
+            }
+            *o += 1;
+            let f = match self.rng.below(8) {
+                0 => FR::Method(ch, SM::GetEmpty),
+                1 => {
+                    let t = self.uniq_tag();
+                    FR::Method(ch, SM::ConsumeOk(t))
+                }
+                2 => FR::Method(ch, SM::CancelOk("nobody".into())),
+                _ => self.random_reply(ch),
+            };
+            episode.push(f);
+            if self.rng.chance(1, 3) {
+                let ep = std::mem::take(&mut episode);
+                self.feed(ep, Term::Block);
+            }
+            if self.rng.chance(1, 3) {
+                let ch2 = *self.rng.pick(&ids);
+                if outstanding.get(&ch2).cloned().unwrap_or(0) > 0 && episode.is_empty() {
+                    self.recv_reply(ch2);
+                    *outstanding.get_mut(&ch2).unwrap() -= 1;
+                }
+            }
+            if self.w.errored || self.w.dead {
+                return;
+            }
+        }
+        if !episode.is_empty() {
+            self.feed(episode, Term::Block);
+        }
+    }
+
+    fn some_steady_traffic(&mut self, k: u64) {
+        for _ in 0..k {
+            if self.w.errored || self.w.dead {
+                return;
+            }
+            match self.rng.below(6) {
+                0 | 1 => {
+                    if let Some(ch) = self.some_open() {
+                        let cons: Vec<String> =
+                            self.consumers.iter().filter(|(c, _)| *c == ch).map(|(_, t)| t.clone()).collect();
+                        if !cons.is_empty() {
+                            let t = self.rng.pick(&cons).clone();
+                            let l = self.body_len().min(300);
+                            let fs = self.content(ch, 0, &t, l, 5);
+                            self.feed(fs, Term::Block);
+                        }
+                    }
+                }
+                2 => {
+                    if let Some(ch) = self.some_open() {
+                        self.client_send(ch);
+                        self.w.event_chan(ch);
+                    }
+                }
+                3 => {
+                    if let Some(ch) = self.some_open() {
+                        let f = self.random_reply(ch);
+                        self.feed(vec![f], Term::Block);
+                        self.recv_reply(ch);
+                    }
+                }
+                4 => {
+                    if self.mode != "c08" || self.w.phase() == 0 {
+                        let o = self.write_oracle();
+                        if !o.iter().any(|w| matches!(w, Wr::Err)) {
+                            let mut r = self.rng.fork();
+                            self.w.stream(Some(o), None, &mut r);
+                        }
+                    }
+                }
+                _ => self.recv_some(),
+            }
+        }
+    }
+
+    fn unique_consumers(&mut self, p: u64) {
+        for ch in self.open_ids() {
+            for _ in 0..3 {
+                if self.rng.chance(p, 100) {
+                    let t = self.uniq_tag();
+                    self.add_consumer(ch, &t);
+                }
+            }
+        }
+    }
+
+    /// C05: a fatal input at a random point; afterwards everything is released
+    fn mode_c05(&mut self) {
+        self.no_random_teardown = true;
+        self.setup_channels(0, 3);
+        self.unique_consumers(50);
+        for ch in self.open_ids() {
+            if self.rng.chance(1, 3) {
+                let k = self.rng.below(2) as u8;
+                self.install_listener(ch, k);
+                self.w.event_chan(ch);
+            }
+        }
+        if self.rng.chance(1, 3) {
+            self.w.cl_set_blocked();
+            self.w.event_set_blocked();
+        }
+        let k = self.rng.range(0, 6);
+        self.some_steady_traffic(k);
+        if self.w.errored || self.w.dead {
+            return;
+        }
+        // content half received on some channel
+        let mut prefix: Vec<FR> = vec![];
+        if let Some(ch) = self.some_open() {
+            if self.rng.chance(1, 2) {
+                let t = self.tag();
+                let mut fs = self.content(ch, 2, &t, 50, 1);
+                fs.truncate(self.rng.range(1, fs.len() as u64 - 1) as usize);
+                prefix = fs;
+            }
+        }
+        // a client request still in a mailbox
+        if let Some(ch) = self.some_open() {
+            if self.rng.chance(1, 2) {
+                self.client_send(ch);
+            }
+        }
+        match self.rng.below(7) {
+            0 => self.feed_stream(prefix, Term::Eof),
+            1 => self.feed_stream(prefix, Term::IoErr),
+            2 => self.feed_stream(prefix, Term::Malformed),
+            3 => {
+                // write error
+                let mut o = vec![];
+                if self.w.outbuf_len() == 0 {
+                    if let Some(ch) = self.some_open() {
+                        self.client_send(ch);
+                        self.w.event_chan(ch);
+                    }
+                }
+                if self.rng.boolean() && self.w.outbuf_len() > 1 {
+                    o.push(Wr::Wrote(1));
+                }
+                o.push(Wr::Err);
+                let mut r = self.rng.fork();
+                self.w.stream(Some(o), None, &mut r);
+            }
+            4 => {
+                prefix.push(FR::Method(0, SM::ConnClose(320, "CONNECTION_FORCED - bye".into())));
+                self.feed_stream(prefix, Term::Block);
+                self.flush_all();
+                self.w.is_done();
+            }
+            5 => {
+                let f = if self.rng.boolean() {
+                    FR::Method(0, SM::ConnOther(1))
+                } else {
+                    FR::Method(self.some_open().unwrap_or(1), SM::Unimpl(1))
+                };
+                prefix.push(f);
+                self.feed_stream(prefix, Term::Block);
+                self.flush_all();
+                self.w.is_done();
+            }
+            _ => {
+                // a frame for a channel that is not open
+                let ch = self.some_closed();
+                prefix.push(FR::Method(ch, SM::GetEmpty));
+                self.feed_stream(prefix, Term::Block);
+            }
+        }
+        self.w.teardown();
+    }
+
+    pub fn feed_stream(&mut self, frames: Vec<FR>, term: Term) {
+        let mut r = self.rng.fork();
+        self.w.stream(None, Some((frames, term)), &mut r);
+    }
+
+    pub fn flush_all(&mut self) {
+        for _ in 0..4 {
+            let l = self.w.outbuf_len();
+            if l == 0 || self.w.errored || self.w.dead {
+                return;
+            }
+            let mut r = self.rng.fork();
+            let o = if self.rng.boolean() { vec![Wr::Wrote(l)] } else { vec![Wr::Wrote(l / 2 + 1), Wr::Wrote(l)] };
+            self.w.stream(Some(o), None, &mut r);
+        }
+    }
+
+    /// C08: the close handshake from either side
+    fn mode_c08(&mut self) {
+        self.no_random_teardown = true;
+        self.setup_channels(0, 4);
+        self.unique_consumers(40);
+        let k = self.rng.range(0, 5);
+        self.some_steady_traffic(k);
+        if self.w.errored || self.w.dead {
+            return;
+        }
+        // data still queued behind a stalled transport
+        if self.rng.chance(1, 2) {
+            if let Some(ch) = self.some_open() {
+                self.client_send(ch);
+                self.w.event_chan(ch);
+            }
+        }
+        let client_side = self.rng.chance(3, 5);
+        if client_side {
+            // racing requests before the close point
+            let racer = self.some_open();
+            if let Some(ch) = racer {
+                if self.rng.boolean() {
+                    self.client_send(ch);
+                }
+            }
+            self.w.peek_out();
+            self.client_close();
+            let order = self.rng.below(3);
+            if order == 0 {
+                if let Some(ch) = racer {
+                    self.w.event_chan(ch);
+                }
+            }
+            self.w.event_chan(0);
+            self.w.peek_out();
+            // submitted after the close point: must never be written
+            if let Some(ch) = self.some_open() {
+                self.client_send(ch);
+                self.w.event_chan(ch);
+            }
+            if order == 1 {
+                if let Some(ch) = racer {
+                    self.w.event_chan(ch);
+                }
+            }
+            // frames still arriving
+            if self.rng.chance(1, 2) {
+                if let Some(ch) = self.some_open() {
+                    let f = self.random_reply(ch);
+                    self.feed(vec![f], Term::Block);
+                }
+            }
+            if self.rng.chance(2, 3) {
+                self.flush_all();
+            }
+            self.w.peek_out();
+            self.w.is_done();
+            if self.w.errored || self.w.dead {
+                return;
+            }
+            let term = match self.rng.below(3) {
+                0 => Term::Eof, // the server drops the socket right after CloseOk
+                _ => Term::Block,
+            };
+            let eof_later = matches!(term, Term::Block) && self.rng.boolean();
+            self.feed_stream(vec![FR::Method(0, SM::ConnCloseOk)], term);
+            self.w.is_done();
+            if eof_later && !self.w.errored {
+                // the real loop has ended by now; nothing more is read
+            }
+            self.w.peek_out();
+        } else {
+            let code = *self.rng.pick(&[320u16, 200, 541, 0, 65535]);
+            let text = s(&mut self.rng);
+            self.w.peek_out();
+            let mut fs = vec![FR::Method(0, SM::ConnClose(code, text))];
+            if self.rng.chance(1, 3) {
+                // something after the Close in the same read
+                let ch = self.some_open().unwrap_or(1);
+                fs.push(FR::Method(ch, SM::GetEmpty));
+            }
+            self.feed_stream(fs, Term::Block);
+            self.w.peek_out();
+            self.w.is_done();
+            // submitted after the close point
+            if let Some(&ch) = self.w.handle_q.keys().next() {
+                self.client_send(ch);
+                self.w.event_chan(ch);
+            }
+            self.client_close();
+            self.w.event_chan(0);
+            self.flush_all();
+            self.w.peek_out();
+            self.w.is_done();
+        }
+        self.w.teardown();
+    }
+
+    /// C09: the server closes one channel; the others go on; the id is reusable
+    fn mode_c09(&mut self) {
+        self.no_random_teardown = true;
+        self.setup_channels(2, 4);
+        self.unique_consumers(40);
+        let ids = self.open_ids();
+        if ids.is_empty() {
+            return;
+        }
+        let victim = *self.rng.pick(&ids);
+        let k = self.rng.range(0, 4);
+        self.some_steady_traffic(k);
+        if self.w.errored || self.w.dead {
+            return;
+        }
+        // state of the victim: call in flight / content half received / wake-up pending
+        let mut pre: Vec<FR> = vec![];
+        match self.rng.below(4) {
+            0 => {
+                self.client_send(victim);
+                if self.rng.boolean() {
+                    self.w.event_chan(victim);
+                }
+            }
+            1 => {
+                let t = self.tag();
+                let mut fs = self.content(victim, 2, &t, 40, 1);
+                fs.truncate(self.rng.range(1, fs.len() as u64 - 1) as usize);
+                pre = fs;
+            }
+            _ => {}
+        }
+        // other channels' frames around the close, in one read or several
+        let others: Vec<u16> = ids.iter().cloned().filter(|c| *c != victim).collect();
+        let mut fs = pre;
+        if let Some(&o) = others.first() {
+            if self.rng.boolean() {
+                fs.push(self.random_reply(o));
+            }
+        }
+        let code = *self.rng.pick(&[404u16, 406, 403, 0]);
+        let text = s(&mut self.rng);
+        self.w.peek_out();
+        fs.push(FR::Method(victim, SM::ChanClose(code, text)));
+        if let Some(&o) = others.last() {
+            if self.rng.boolean() {
+                fs.push(self.random_reply(o));
+            }
+        }
+        self.feed(fs, Term::Block);
+        self.w.peek_out();
+        if self.w.errored || self.w.dead {
+            return;
+        }
+        // a wake-up for the closed channel that was already pending
+        if self.rng.boolean() {
+            self.w.event_chan(victim);
+        }
+        // the old handle keeps failing
+        self.recv_reply(victim);
+        self.client_send(victim);
+        self.recv_reply(victim);
+        for &o in &others {
+            self.recv_reply(o);
+        }
+        // the others keep working
+        for &o in &others {
+            let f = self.random_reply(o);
+            self.feed(vec![f], Term::Block);
+            self.recv_reply(o);
+            if self.w.errored {
+                return;
+            }
+        }
+        // a late CloseOk from the server for a close the client had in flight
+        if self.rng.chance(1, 3) {
+            self.feed(vec![FR::Method(victim, SM::ChanCloseOk)], Term::Block);
+        }
+        // the id is available again
+        if self.rng.chance(2, 3) {
+            self.w.cl_drop_handle(victim);
+            self.open_channel(Some(victim));
+            if self.open_ids().contains(&victim) {
+                let f = self.random_reply(victim);
+                self.feed(vec![f], Term::Block);
+                self.recv_reply(victim);
+            }
+        }
+    }
+
+    /// C11: consumer life cycles
+    fn mode_c11(&mut self) {
+        self.no_random_teardown = true;
+        self.setup_channels(1, 3);
+        self.unique_consumers(70);
+        let n = self.rng.range(1, 12);
+        for _ in 0..n {
+            if self.w.errored || self.w.dead || self.w.phase() != 0 {
+                break;
+            }
+            let live: Vec<(u16, String)> = self.consumers.clone();
+            match self.rng.below(14) {
+                0..=4 => {
+                    if !live.is_empty() {
+                        let (ch, t) = self.rng.pick(&live).clone();
+                        let l = self.body_len().min(200);
+                        let fs = self.content(ch, 0, &t, l, 9);
+                        self.feed(fs, Term::Block);
+                    }
+                }
+                5 | 6 => {
+                    // client cancel: request, deliveries in between, confirmation
+                    if !live.is_empty() {
+                        let (ch, t) = self.rng.pick(&live).clone();
+                        let bytes = self.w.method_bytes(ch, &SM::Cancel(t.clone(), false));
+                        self.w.cl_send_bytes(ch, bytes, false);
+                        self.w.event_chan(ch);
+                        if self.rng.boolean() {
+                            let fs = self.content(ch, 0, &t, 3, 10);
+                            self.feed(fs, Term::Block);
+                        }
+                        self.feed(vec![FR::Method(ch, SM::CancelOk(t.clone()))], Term::Block);
+                        self.recv_reply(ch);
+                        self.consumers.retain(|x| *x != (ch, t.clone()));
+                    }
+                }
+                7 | 8 => {
+                    if !live.is_empty() {
+                        let (ch, t) = self.rng.pick(&live).clone();
+                        let nw = self.rng.boolean();
+                        self.feed(vec![FR::Method(ch, SM::Cancel(t.clone(), nw))], Term::Block);
+                        self.consumers.retain(|x| *x != (ch, t.clone()));
+                        // the client cancels it anyway (dropping the Consumer does)
+                        if self.rng.chance(1, 3) {
+                            self.feed(vec![FR::Method(ch, SM::CancelOk(t.clone()))], Term::Block);
+                            self.recv_reply(ch);
+                        }
+                    }
+                }
+                9 => {
+                    if let Some(ch) = self.some_open() {
+                        let (code, text) = (*self.rng.pick(&[404u16, 406]), s(&mut self.rng));
+                        self.feed(vec![FR::Method(ch, SM::ChanClose(code, text))], Term::Block);
+                        self.consumers.retain(|x| x.0 != ch);
+                    }
+                }
+                10 => {
+                    if let Some(ch) = self.some_open() {
+                        self.feed(vec![FR::Method(ch, SM::ChanCloseOk)], Term::Block);
+                        self.consumers.retain(|x| x.0 != ch);
+                    }
+                }
+                11 => {
+                    if self.rng.chance(1, 2) {
+                        let (code, text) = (320u16, s(&mut self.rng));
+                        self.feed(vec![FR::Method(0, SM::ConnClose(code, text))], Term::Block);
+                    }
+                }
+                12 => {
+                    if self.rng.chance(1, 2) {
+                        self.feed(vec![FR::Method(0, SM::ConnCloseOk)], Term::Block);
+                    }
+                }
+                _ => self.recv_some(),
+            }
+        }
+    }
+
+    /// C13: confirms, returns, blocked notices and their listeners
+    fn mode_c13(&mut self) {
+        self.no_random_teardown = true;
+        self.setup_channels(1, 3);
+        let n = self.rng.range(2, 25);
+        let mut dtag = 1u64;
+        for _ in 0..n {
+            if self.w.errored || self.w.dead {
+                break;
+            }
+            match self.rng.below(16) {
+                0..=3 => {
+                    if let Some(ch) = self.some_open() {
+                        let m = if self.rng.boolean() { SM::Ack(dtag, self.rng.boolean()) } else { SM::Nack(dtag, self.rng.boolean()) };
+                        dtag += self.rng.range(0, 3);
+                        self.feed(vec![FR::Method(ch, m)], Term::Block);
+                    }
+                }
+                4 | 5 => {
+                    if let Some(ch) = self.some_open() {
+                        let l = self.body_len().min(100);
+                        let fs = self.content(ch, 1, "", l, 0);
+                        self.feed(fs, Term::Block);
+                    }
+                }
+                6 | 7 => {
+                    let f = if self.rng.boolean() { FR::Method(0, SM::Blocked(s(&mut self.rng))) } else { FR::Method(0, SM::Unblocked) };
+                    self.feed(vec![f], Term::Block);
+                }
+                8..=10 => {
+                    if let Some(ch) = self.some_open() {
+                        let kind = self.rng.below(2) as u8;
+                        self.install_listener(ch, kind);
+                        self.w.event_chan(ch);
+                    }
+                }
+                11 => {
+                    self.w.cl_set_blocked();
+                    self.w.event_set_blocked();
+                }
+                12 => {
+                    let ls = self.w.listener_qs.clone();
+                    if !ls.is_empty() {
+                        let (q, _) = *self.rng.pick(&ls);
+                        self.w.cl_drop_rx(q);
+                    }
+                }
+                13 => {
+                    // clear a listener
+                    if let Some(ch) = self.some_open() {
+                        let kind = self.rng.below(2) as u8;
+                        self.w.cl_send_listener(ch, kind, None);
+                        self.w.event_chan(ch);
+                    }
+                }
+                _ => {
+                    let ls = self.w.listener_qs.clone();
+                    if !ls.is_empty() {
+                        let (q, _) = *self.rng.pick(&ls);
+                        self.w.cl_recv(q);
+                    }
+                }
+            }
+        }
+    }
+
+    /// C20: closes and requests in one batch, in every order
+    fn mode_c20(&mut self) {
+        self.no_random_teardown = true;
+        self.setup_channels(1, 3);
+        self.unique_consumers(30);
+        let ids = self.open_ids();
+        if ids.is_empty() {
+            return;
+        }
+        let victim = *self.rng.pick(&ids);
+        let other = ids.iter().cloned().find(|c| *c != victim);
+        // what is pending when the I/O thread wakes up
+        #[derive(Clone, Copy, PartialEq)]
+        enum Ev {
+            ConnClose,
+            ChanClose,
+            Exception,
+            Alloc,
+            SetBlocked,
+            Ch0Close,
+            OnVictim,
+            OnOther,
+        }
+        let mut pool = vec![Ev::Alloc, Ev::SetBlocked, Ev::Ch0Close, Ev::OnVictim, Ev::OnOther];
+        self.rng.shuffle(&mut pool);
+        let closer = *self.rng.pick(&[Ev::ConnClose, Ev::ConnClose, Ev::ChanClose, Ev::Exception]);
+        let k = self.rng.range(1, 3) as usize;
+        let mut batch: Vec<Ev> = pool[..k].to_vec();
+        batch.push(closer);
+        if self.rng.chance(1, 4) {
+            batch.push(Ev::ChanClose);
+        }
+        self.rng.shuffle(&mut batch);
+        // client side: make the requests pending (no event handled yet)
+        for e in &batch {
+            match e {
+                Ev::Alloc => self.w.cl_alloc_req(if self.rng.boolean() { None } else { Some(victim) }),
+                Ev::SetBlocked => {
+                    self.w.cl_set_blocked();
+                }
+                Ev::Ch0Close => self.client_close(),
+                Ev::OnVictim => self.client_send(victim),
+                Ev::OnOther => {
+                    if let Some(o) = other {
+                        self.client_send(o)
+                    }
+                }
+                _ => {}
+            }
+        }
+        // the batch, in its order
+        let mut chan_closed = false;
+        for e in &batch {
+            if self.w.errored || self.w.dead {
+                break;
+            }
+            match e {
+                Ev::ConnClose => self.feed_stream(vec![FR::Method(0, SM::ConnClose(320, "forced".into()))], Term::Block),
+                Ev::ChanClose => {
+                    if !chan_closed {
+                        self.feed_stream(vec![FR::Method(victim, SM::ChanClose(406, "precondition".into()))], Term::Block);
+                        chan_closed = true;
+                    }
+                }
+                Ev::Exception => self.feed_stream(vec![FR::Method(victim, SM::Unimpl(2))], Term::Block),
+                Ev::Alloc => self.w.event_alloc(),
+                Ev::SetBlocked => self.w.event_set_blocked(),
+                Ev::Ch0Close => self.w.event_chan(0),
+                Ev::OnVictim => self.w.event_chan(victim),
+                Ev::OnOther => {
+                    if let Some(o) = other {
+                        self.w.event_chan(o)
+                    }
+                }
+            }
+        }
+        self.w.is_done();
+        self.flush_all();
+        self.w.is_done();
+        self.w.peek_out();
+        self.w.cl_recv(1);
+        self.w.teardown();
     }
 
     /// valid server histories: messages rendered with any partition, channels
